@@ -33,6 +33,12 @@ pub struct HexCase {
     pub dec_stdin: bool,
     /// pass "-" explicitly instead of relying on the default argument
     pub explicit_dash: bool,
+    /// the stage's input arrives through a pipe ("-"/default when the stage uses stdin, the
+    /// non-regular path /dev/stdin otherwise)
+    #[serde(default)]
+    pub enc_pipe: bool,
+    #[serde(default)]
+    pub dec_pipe: bool,
     pub enc_r: Vec<IoStep>,
     pub enc_w: Vec<IoStep>,
     pub dec_r: Vec<IoStep>,
@@ -201,12 +207,18 @@ pub fn spec_decode(text: &[u8]) -> Option<Vec<u8>> {
 impl HexCase {
     fn stage(&self, op: &str, input: &[u8], use_stdin: bool, r: &[IoStep], w: &[IoStep]) -> Cmd {
         let mut cmd = Cmd { argv: vec!["hex".into(), op.into()], wplan: w.to_vec(), ..Cmd::default() };
+        let pipe = if op == "encode" { self.enc_pipe } else { self.dec_pipe };
         if use_stdin {
             if self.explicit_dash {
                 cmd.argv.push("-".into());
             }
             cmd.stdin = Some(input.to_vec());
+            cmd.stdin_pipe = pipe;
             cmd.rplan = r.to_vec();
+        } else if pipe && !iogen::has_hard(r) {
+            cmd.argv.push("/dev/stdin".into());
+            cmd.stdin = Some(input.to_vec());
+            cmd.stdin_pipe = true;
         } else {
             cmd.argv.push("in.bin".into());
             cmd.files.push(NamedFile { name: "in.bin".into(), data: input.to_vec() });
@@ -448,6 +460,12 @@ impl HexCase {
                 }
             }
         }
+        if self.enc_pipe || self.dec_pipe {
+            let mut c = self.clone();
+            c.enc_pipe = false;
+            c.dec_pipe = false;
+            push(c);
+        }
         for flag in 0..3 {
             let mut c = self.clone();
             match flag {
@@ -490,6 +508,8 @@ fn gen_common(rng: &mut Rng, data: Vec<u8>) -> HexCase {
         enc_stdin: rng.chance(3, 4),
         dec_stdin: rng.chance(3, 4),
         explicit_dash: rng.coin(),
+        enc_pipe: rng.chance(1, 4),
+        dec_pipe: rng.chance(1, 4),
         enc_r: benign_plan(rng, enc_len),
         enc_w: benign_plan(rng, text_len),
         dec_r: benign_plan(rng, text_len + 10),
